@@ -685,6 +685,24 @@ func (b *bsearch) run() {
 	}
 	op, idx, fld, ok := b.pred(pif.Cond)
 	if !ok {
+		cmpKeys := b.p.Fn("types", "", "CompareKeys")
+		usesCmp := b.p.dependsOn(pif.Cond, func(x ssa.Value) bool { return callTo(b.p, x, cmpKeys) != nil })
+		usesElem := b.p.dependsOn(pif.Cond, func(x ssa.Value) bool {
+			fv, base := loadedField(x)
+			if fv == nil {
+				return false
+			}
+			ia, isIA := base.(*ssa.IndexAddr)
+			if !isIA {
+				return false
+			}
+			cf, _ := loadedField(ia.X)
+			return cf == b.cont
+		})
+		if usesElem && !usesCmp {
+			b.viol("predicate", instrPos(pif), "the search predicate orders the elements by something other than CompareKeys(elem, key) (e.g. user keys or raw text): versions of one key that straddle a block boundary are looked for in the wrong place")
+			return
+		}
 		b.undecided("predicate", "the branch at the top of the loop body is not CompareKeys(<element>, key) <op> 0")
 		return
 	}
